@@ -745,6 +745,22 @@ impl Part for C15 {
                     }
                     Err(e) => out.fail(e),
                 }
+                // the single-shot forms take the same bundle: what enters THEIR key schedule is visible in the ciphertext
+                if suite.aead.can_seal() {
+                    let mut rc = rctx.clone();
+                    let ct = rc.seal(b"aad", b"c15 single shot").unwrap();
+                    let nt = suite.aead.nt();
+                    let mut rng = ScriptRng::new(&k.ikm_e);
+                    expect_bytes(&mut out, &format!("single_shot_seal (psk {} / psk_id {} bytes in mode {:?})", psk_len, psk_id_len, mode), &ops.single_shot_seal(&m, &k.pk_r, &info, b"c15 single shot", b"aad", &mut rng).map(|x| x.1), &ct);
+                    let mut rng = ScriptRng::new(&k.ikm_e);
+                    let mut b = b"c15 single shot".to_vec();
+                    let got = ops.single_shot_seal_ip(&m, &k.pk_r, &info, &mut b, b"aad", &mut rng).map(|x| [b.clone(), x.1].concat());
+                    expect_bytes(&mut out, &format!("single_shot_seal_in_place_detached (mode {:?})", mode), &got, &ct);
+                    expect_bytes(&mut out, &format!("single_shot_open (mode {:?})", mode), &ops.single_shot_open(&m, &k.sk_r, &enc_ref, &info, &ct, b"aad"), b"c15 single shot");
+                    let mut b = ct[..ct.len() - nt].to_vec();
+                    let got = ops.single_shot_open_ip(&m, &k.sk_r, &enc_ref, &info, &mut b, b"aad", &ct[ct.len() - nt..]).map(|_| b.clone());
+                    expect_bytes(&mut out, &format!("single_shot_open_in_place_detached (mode {:?})", mode), &got, b"c15 single shot");
+                }
                 if mode.has_psk() {
                     // independence check of the oracle itself: swapping psk and psk_id changes R1's output
                     let mut sw = m.clone();
